@@ -529,7 +529,7 @@ class DisturbedPairDownload(PairDownloadTheorem):
     loop_specs = {("download_in_chunks", 0): LoopSpec(_dd_inv, _dd_havoc,
                                                       lambda interp, fr: binop("-", fr.locals["total"], fr.locals["pos"]))}
     exits = ("return", "raise:SdoCommunicationError", "raise:SdoAbortedError")
-    budget_s = 900
+    budget_s = 1500
 
     def setup(self, w, case):
         declared, refused = case
@@ -574,7 +574,7 @@ class DisturbedPairUpload(PairUploadTheorem):
     cases = {"segmented": "seg"}
     loop_specs = {("upload_all", 0): LoopSpec(_du_inv, _du_havoc, _pu_variant)}
     exits = ("return", "raise:SdoCommunicationError", "raise:SdoAbortedError")
-    budget_s = 900
+    budget_s = 1500
 
     def setup(self, w, case):
         index, sub = w.int("index", 0, 0xFFFF), w.int("sub", 0, 0xFF)
